@@ -16,13 +16,13 @@ Print Assumptions c06_lost_broadcasts_on_this_tree.
 (* reported links per peer = live links with that remote: index used by the resolvers *)
 Theorem c06_index_is_live : forall U me h r q,
   In q (peer_links r (run U me h)) <-> In q (live U me h) /\ remote_of U q = r.
-Proof. intros U. exact (reported_is_live U lost_broadcasts true). Qed.
+Proof. intros U me h r q. exact (reported_is_live U lost_broadcasts true me h r q (wf_true h)). Qed.
 Print Assumptions c06_index_is_live.
 
 (* ... Controller.GetPeerLinks *)
 Theorem c06_get_peer_links_is_live : forall U me h r q,
   In q (get_peer_links U (run U me h) r) <-> In q (live U me h) /\ remote_of U q = r.
-Proof. intros U. exact (get_peer_links_is_live U lost_broadcasts true). Qed.
+Proof. intros U me h r q. exact (get_peer_links_is_live U lost_broadcasts true me h r q (wf_true h)). Qed.
 Print Assumptions c06_get_peer_links_is_live.
 
 (* ... and what an EstablishLinkWithPeer(src, dst) request yields after any history *)
@@ -31,7 +31,7 @@ Theorem c06_yielded_is_live : forall U me h src dst q,
   dst <> 0 /\ (src = 0 \/ src = me) /\ In q (live U me h) /\ remote_of U q = dst.
 Proof.
   intros U me h src dst q. rewrite c06_lost_broadcasts_on_this_tree.
-  apply (yielded_is_live_when_lost_broadcasts U true). left; reflexivity.
+  apply (yielded_is_live_when_lost_broadcasts U true); [left; reflexivity|apply wf_true].
 Qed.
 Print Assumptions c06_yielded_is_live.
 
@@ -43,28 +43,28 @@ Print Assumptions c06_reported_once.
 (* at most one live link per identifier *)
 Theorem c06_one_link_per_uuid : forall U me h q1 q2,
   In q1 (live U me h) -> In q2 (live U me h) -> uuid_of U q1 = uuid_of U q2 -> q1 = q2.
-Proof. intros U. exact (live_unique_uuid U lost_broadcasts true). Qed.
+Proof. intros U me h q1 q2. exact (live_unique_uuid U lost_broadcasts true me h q1 q2 (wf_true h)). Qed.
 Print Assumptions c06_one_link_per_uuid.
 
 (* a lost link is never reported again (unless the transport reports it established again) *)
 Theorem c06_lost_never_reported : forall U me h h' q r,
   ~ In (Est q) h' -> ~ In q (peer_links r (run U me (h ++ Lost q :: h'))).
-Proof. intros U. exact (lost_never_reported U lost_broadcasts true). Qed.
+Proof. intros U me h h' q r. exact (lost_never_reported U lost_broadcasts true me h h' q r (wf_true _)). Qed.
 Print Assumptions c06_lost_never_reported.
 
 Theorem c06_lost_never_yielded : forall U me h h' q src dst,
   ~ In (Est q) h' -> ~ In q (yielded U lost_broadcasts true me (h ++ Lost q :: h') src dst).
 Proof.
   intros U me h h' q src dst Hn H. apply c06_yielded_is_live in H as (_ & _ & H & Hr).
-  apply (lost_never_reported U lost_broadcasts true me h h' q dst Hn).
-  apply (reported_is_live U lost_broadcasts true). split; assumption.
+  apply (lost_never_reported U lost_broadcasts true me h h' q dst (wf_true _) Hn).
+  apply (reported_is_live U lost_broadcasts true _ _ _ _ (wf_true _)). split; assumption.
 Qed.
 Print Assumptions c06_lost_never_yielded.
 
 (* ... and has been closed *)
 Theorem c06_lost_is_closed : forall U me h h' q,
   In (Est q) h -> ~ In (Est q) h' -> In q (st_closed (run U me (h ++ Lost q :: h'))).
-Proof. intros U. exact (lost_is_closed U lost_broadcasts true). Qed.
+Proof. intros U me h h' q. exact (lost_is_closed U lost_broadcasts true me h h' q (wf_true _)). Qed.
 Print Assumptions c06_lost_is_closed.
 
 (* every link ever reported established is in the table or closed: nothing leaks *)
@@ -76,14 +76,14 @@ Print Assumptions c06_established_tracked.
 (* losing a link never removes another link, in particular ... *)
 Theorem c06_lost_keeps_others : forall U me h p q r,
   p <> q -> In q (peer_links r (run U me h)) -> In q (peer_links r (run U me (h ++ [Lost p]))).
-Proof. intros U. exact (lost_keeps_others U lost_broadcasts true). Qed.
+Proof. intros U me h p q r. exact (lost_keeps_others U lost_broadcasts true me h p q r (wf_true h)). Qed.
 Print Assumptions c06_lost_keeps_others.
 
 (* ... the newer link that replaced it under the same identifier *)
 Theorem c06_newer_survives : forall U me h q1 q2,
   q1 <> q2 -> remote_of U q2 <> me ->
   In q2 (peer_links (remote_of U q2) (run U me (h ++ [Est q1; Est q2; Lost q1]))).
-Proof. intros U. exact (newer_survives U lost_broadcasts true). Qed.
+Proof. intros U me h q1 q2. exact (newer_survives U lost_broadcasts true me h q1 q2 (wf_true _)). Qed.
 Print Assumptions c06_newer_survives.
 
 (* a duplicate establish report is idempotent *)
